@@ -258,9 +258,24 @@ class Body:
             if k == 'goto':
                 ss = [t['t']]
             elif k == 'switch':
-                ss = [c[1] for c in t['cases']]
-                if not self._exhaustive_switch(b, t):
-                    ss.append(t['else'])
+                d = t.get('d') or {}
+                cv = d['c'].get('v') if 'c' in d else None
+                if cv is None and is_place(d) and not op_place(d)['p']:
+                    # `_4 = const false; switchInt(move _4)`: the temporary assigned in this very block
+                    for st in reversed(b['st']):
+                        if st['lhs']['l'] == op_place(d)['l'] and not st['lhs']['p']:
+                            if st['rv']['k'] == 'use' and 'c' in st['rv']['a']:
+                                cv = st['rv']['a']['c'].get('v')
+                            break
+                if cv is not None and not isinstance(cv, str):
+                    # `if false { .. }` / `if CONST { .. }`: a switch on a literal takes one edge only
+                    cv = int(cv)
+                    hit = [c[1] for c in t['cases'] if c[0] == cv]
+                    ss = hit[:1] if hit else [t['else']]
+                else:
+                    ss = [c[1] for c in t['cases']]
+                    if not self._exhaustive_switch(b, t):
+                        ss.append(t['else'])
             elif k in ('call', 'drop', 'assert'):
                 if t.get('t') is not None:
                     ss = [t['t']]
@@ -324,7 +339,10 @@ class Body:
 
     def live_blocks(self):
         """Blocks reachable from entry on normal edges."""
-        return self.reach(0)
+        lv = self.__dict__.get('_live')
+        if lv is None:
+            lv = self.__dict__['_live'] = frozenset(self.reach(0))
+        return lv
 
     def reach(self, start, avoid_edges=(), avoid_blocks=()):
         avoid_edges = set(avoid_edges)
@@ -608,15 +626,21 @@ class Body:
 
     def edge_dominates(self, edge, target):
         """Every path entry -> target takes `edge` (target reachable at all)."""
+        if target not in self.live_blocks():
+            return False
         return target not in self._reach_avoiding(frozenset([tuple(edge)]), frozenset(), target)
 
     def edges_dominate(self, edges, target):
-        """Every path entry -> target takes at least one of `edges`."""
+        """Every path entry -> target takes at least one of `edges` (target reachable at all)."""
+        if target not in self.live_blocks():
+            return False
         return target not in self._reach_avoiding(frozenset(tuple(e) for e in edges), frozenset(), target)
 
     def block_dominates(self, a, target):
         if a == target:
             return True
+        if target not in self.live_blocks():
+            return False
         return target not in self._reach_avoiding(frozenset(), frozenset([a]), target)
 
     def dominated_by_edge(self, edge):
@@ -629,6 +653,9 @@ class Body:
         live = self.live_blocks()
         r = self._reach_avoiding(frozenset(), frozenset([a]), None)
         return set(b for b in live if b not in r) | {a}
+
+    def is_live(self, b):
+        return b in self.live_blocks()
 
     def _reach_avoiding(self, edges, blocks, target):
         """Blocks reachable from the entry without the given edges / blocks: the plain CFG answer when it already excludes
@@ -652,9 +679,10 @@ class Body:
     def calls(self, *pats):
         if self._calls is None:
             cs = []
+            live = self.live_blocks()
             for i, b in enumerate(self.blocks):
-                if b['cleanup']:
-                    continue
+                if b['cleanup'] or i not in live:
+                    continue      # unwinding paths and dead code (`if false { .. }`) are not part of the program
                 if b['term']['k'] == 'call':
                     cs.append(Call(self, i, b['term']))
             self._calls = cs
